@@ -156,9 +156,19 @@ func MustCompile(pattern string) *Regex {
 // that early regular expression implementations used and that POSIX
 // specifies.
 func CompilePOSIX(pattern string) (*Regex, error) {
-	re, err := Compile(pattern)
+	// POSIX ERE syntax: no Perl classes (\d), no \b, \pL, (?i) or non-greedy
+	// operators - the same restricted grammar regexp.CompilePOSIX parses.
+	parsed, err := syntax.Parse(pattern, syntax.POSIX)
+	if err != nil {
+		return nil, &meta.CompileError{Pattern: pattern, Err: err}
+	}
+	engine, err := meta.CompileRegexp(parsed, meta.DefaultConfig())
 	if err != nil {
 		return nil, err
+	}
+	re := &Regex{
+		engine:  engine,
+		pattern: pattern,
 	}
 	re.Longest()
 	return re, nil
